@@ -47,6 +47,12 @@ impl<'a> Field<'a> {
         }
     }
 
+    /// The local that buffers this field's value in generated code.
+    pub fn local(&self) -> Ident {
+        use syn::ext::IdentExt;
+        quote::format_ident!("__darling_field_{}", self.ident.unraw())
+    }
+
     pub fn as_declaration(&'a self) -> Declaration<'a> {
         Declaration(self)
     }
@@ -90,7 +96,7 @@ pub struct Declaration<'a>(&'a Field<'a>);
 impl ToTokens for Declaration<'_> {
     fn to_tokens(&self, tokens: &mut TokenStream) {
         let field = self.0;
-        let ident = field.ident;
+        let ident = &field.local();
         let ty = field.ty;
 
         tokens.append_all(if field.multiple {
@@ -124,7 +130,7 @@ impl ToTokens for FlattenInitializer<'_> {
             field,
             parent_field_names,
         } = self;
-        let ident = field.ident;
+        let ident = &field.local();
         // `map` / `and_then` on the flatten field apply to the flattened value, as they do for
         // every other field.
         let post_transform = field.post_transform.as_ref();
@@ -161,7 +167,7 @@ impl ToTokens for MatchArm<'_> {
         }
 
         let name_str = &field.name_in_attr;
-        let ident = field.ident;
+        let ident = &field.local();
         let with_callable = &field.with_callable;
         let post_transform = field.post_transform.as_ref();
 
@@ -223,24 +229,25 @@ impl ToTokens for Initializer<'_> {
     fn to_tokens(&self, tokens: &mut TokenStream) {
         let field = self.0;
         let ident = field.ident;
+        let local = &field.local();
         tokens.append_all(if field.multiple {
             if let Some(ref expr) = field.default_expression {
-                quote_spanned!(expr.span()=> #ident: if !#ident.is_empty() {
-                    #ident
+                quote_spanned!(expr.span()=> #ident: if !#local.is_empty() {
+                    #local
                 } else {
                     #expr
                 })
             } else {
-                quote!(#ident: #ident)
+                quote!(#ident: #local)
             }
         } else if let Some(ref expr) = field.default_expression {
-            quote_spanned!(expr.span()=> #ident: if let ::darling::export::Some(__val) = #ident.1 {
+            quote_spanned!(expr.span()=> #ident: if let ::darling::export::Some(__val) = #local.1 {
                 __val
             } else {
                 #expr
             })
         } else {
-            quote!(#ident: #ident.1.expect("Uninitialized fields without defaults were already checked"))
+            quote!(#ident: #local.1.expect("Uninitialized fields without defaults were already checked"))
         });
     }
 }
@@ -251,7 +258,7 @@ pub struct CheckMissing<'a>(&'a Field<'a>);
 impl ToTokens for CheckMissing<'_> {
     fn to_tokens(&self, tokens: &mut TokenStream) {
         if !self.0.multiple && self.0.default_expression.is_none() {
-            let ident = self.0.ident;
+            let ident = &self.0.local();
             let ty = self.0.ty;
             let name_in_attr = &self.0.name_in_attr;
 
